@@ -217,10 +217,16 @@ def _call_entry(entry, incl, excl, L, flags_extra=0):
         return list(G.iglob(incl, flags=G.BRACE | G.SPLIT, limit=L, exclude=ex, root_dir='/nonexistent-wcverif'))
     if entry == 'pathlib_match':
         return P.PurePath('x').match(incl, flags=P.BRACE | P.SPLIT, limit=L, exclude=ex)
-    if entry == 'pathlib_glob':
-        return list(P.Path(__import__('tempfile').gettempdir()).glob(incl, flags=P.BRACE | P.SPLIT, limit=L, exclude=ex))
-    if entry == 'pathlib_rglob':
-        return list(P.Path(__import__('tempfile').gettempdir()).rglob(incl, flags=P.BRACE | P.SPLIT, limit=L, exclude=ex))
+    if entry in ('pathlib_glob', 'pathlib_rglob'):
+        # an existing but EMPTY directory: the law is about expansion work, not about walking whatever the temp directory holds
+        import shutil
+        import tempfile
+        d = tempfile.mkdtemp(prefix='wcverif_c11_')
+        try:
+            pth = P.Path(d)
+            return list((pth.glob if entry == 'pathlib_glob' else pth.rglob)(incl, flags=P.BRACE | P.SPLIT, limit=L, exclude=ex))
+        finally:
+            shutil.rmtree(d, ignore_errors=True)
     if entry == 'wcmatch':
         # brace expansion applies to the whole |-joined string (and would multiply the pieces): spell ranges out instead
         def spell(p):
@@ -253,7 +259,9 @@ def limit_boundary(entry, L, shape, _guarded=False):
         dt = time.time() - t
         if raised != expect_raise:
             bad.append(f'{label}: raised={raised} expected={expect_raise}')
-        if dt > 20:
+        if dt > 120:
+            # (a generous bound: at the boundary about L patterns are legitimately compiled; the fail-fast clause proper is the `huge` shape,
+            # run in a child process with its own time and memory limits)
             bad.append(f'{label}: took {dt:.1f}s')
 
     if shape == 'incl_only':
